@@ -99,6 +99,10 @@ def run(ctx) -> None:
             if not all(v is not None and any(isinstance(x, ast.Call) and "get_value_source" in call_names(db, x, ri) for x in ast.walk(getattr(v, "value", v))) for d, v in ds):
                 okv = False
         rep.add("C18.R1", f"{ri.qname}:copies-the-resolved-value", okv, ri.loc(), "the value that is copied is the one get_value_source returned" if okv else "the deep-copied object is not the value returned by get_value_source")
+    from .c01 import check_bound_class_from_bound_tables, check_default_class_from_signature
+
+    check_default_class_from_signature(ctx, "C18.R1")
+    check_bound_class_from_bound_tables(ctx, "C18.R1")
     sd = db.func("runners._shared.helpers._safe_deepcopy")
     rets = [n for n in walk_local(sd.node) if isinstance(n, ast.Return)]
     ok = bool(rets) and all(isinstance(r.value, ast.Call) and dotted(r.value.func) == "copy.deepcopy" and r.value.args and src(r.value.args[0]) == sd.positional_params[0] for r in rets)
